@@ -638,6 +638,13 @@ func (b *Built) Execute(r *rand.Rand) {
 			}
 			env.emit(ret3)
 		}
+		if s.Target.Once {
+			// a run-once target: it has been used through the redefined function; a direct call with everything it needs
+			// (the original options and the values of the first follow-up call) finds the memo - the body does not run again
+			env.Phase = s.Phase0 + 4
+			res4 := b.Target.Call(append(b.Args(r), call...)...)
+			env.emit(b.classify(res4, s.Phase0+4))
+		}
 	default:
 		panic("harness: unknown mode " + s.Mode)
 	}
